@@ -21,6 +21,7 @@ func init() {
 			"(R2, field coverage) every field of Configuration is merged with higher-non-default-wins (scalar fields: value taken from `higher` under its own non-default test, else from `lower`; ignore lists: lower appended before higher) and compared in Equal; " +
 			"(R3, text round trip — fully decided from the two switch tables) for every enum type of the configuration with MarshalText/UnmarshalText, Unmarshal(Marshal(k)) = k for each non-default constant and the strings are pairwise distinct; " +
 			"(R4) the remote initialise request accepts only if Configuration.EnsureValid(false) succeeded, and core.EnsureDefaultFileModeValid has no accepting path with portable mode ∧ executable bits. " +
+			"(R5) Configuration.EnsureValid checks the default file and directory modes against the effective permissions mode — the session default (Version.DefaultPermissionsMode) wherever the configured mode is unspecified, the configured mode only where IsDefault is false; " +
 			"Not decided: semantic validity rules inside EnsureValid beyond the default-file-mode clause.",
 		Assumptions: []string{"MergeConfigurations is the only producer of effective endpoint configurations (checked: connect's argument provenance)"},
 		Run:         runC37,
@@ -28,6 +29,7 @@ func init() {
 }
 
 func runC37(c *eng.Ctx) {
+	c37EffectiveMode(c)
 	merge := c.MustFunc("R1", syncPkg, "MergeConfigurations")
 	conn := c.MustFunc("R1", syncPkg, "connect")
 	if merge == nil || conn == nil {
